@@ -36,11 +36,21 @@ def generate(tier, seed):
     thorough = tier == 'thorough'
     recs = []
 
+    counter = [0]
+
     def add(kind, cls, p, t, subsets, follow=None):
         base = tagged(kind, cls, p, t, rng, nbnd=1)
         for s in subsets:
             r = dict(base)
-            r['ops'] = [['adapt', [int(v) for v in s]]] + (follow or [])
+            mk = [int(v) for v in s]
+            counter[0] += 1
+            if counter[0] % 4 == 0:
+                mk = mk[::-1]                      # a SET of cells: the order in which it is listed must not matter
+            elif counter[0] % 4 == 2 and len(mk) > 2:
+                mk = [mk[j] for j in rng.permutation(len(mk))]
+            r['ops'] = [['adapt', mk]] + (follow or [])
+            if counter[0] % 7 == 0:
+                r['marked_as'] = 'list'
             recs.append(r)
 
     # segments: every marked subset
